@@ -65,6 +65,9 @@ class Emitter:
     def tok(self, text, glue=False):
         if not glue or self.lines[-1] == "":
             self._gap()
+        elif self.rng and self.wild and self.rng.random() < self.wild * 0.4:
+            # layout is free between any two tokens: `format ("a")`, `a . b`, `x ;`
+            self.lines[-1] += self.rng.choice([" ", " ", "  "])
         line, col = self.pos()
         self.lines[-1] += text
         self.need_space = True
